@@ -470,6 +470,7 @@ def run(spec, tier, seed, replay=None):
 			'rule': getattr(spec, 'RULE', ''),
 			'input_distribution': kinds,
 			'impl_statement_coverage_of_anchor_files': impl_cov,
+			'impl_statement_coverage_note': getattr(spec, 'COVERAGE_NOTE', 'measured in the harness process while the cases ran (module-level statements included); never used for the verdict'),
 			'samples': samples,
 			'known_findings_reproduced': sorted(known_hit),
 			'fixed_findings_checked': [f['id'] for f in fixed],
